@@ -537,6 +537,14 @@ def _assert_invariant(contract: Contract, instance: Any) -> None:
     else:
         check = contract.condition()
 
+    if inspect.iscoroutine(check):
+        # The invariants are always checked synchronously; the coroutine must not be taken for a truthy value.
+        raise ValueError(
+            "Unexpected coroutine resulting from the invariant condition {} of the class {}.".format(
+                contract.condition, instance.__class__
+            )
+        )
+
     if not_check(check=check, contract=contract):
         raise _create_violation_error(
             contract=contract, resolved_kwargs={"self": instance}
